@@ -117,6 +117,35 @@ def specDigits (bps : Nat) (num : List Char) (width : Option Nat) : Option (List
   | some 0 => some bits
   | some w => if w < bits.length then none else some (bits ++ List.replicate (w - bits.length) (some false))
 
+/-- the number a decimal digit string spells (`strtoull`, before its range check) -/
+def decValue (num : List Char) : Nat := num.foldl (fun a c => a * 10 + (c.toNat - '0'.toNat)) 0
+
+/-- `d` literals: the number in exactly as many bits as it needs (`Log2C(n+1)`; 64 for 2^64-1), or in the explicit width -/
+def specDec (num : List Char) (width : Option Nat) : Option (List (Option Bool)) :=
+  let n := decValue num
+  if n ≥ 2^64 then none else
+  let w := if n = 2^64 - 1 then 64 else log2c (n + 1)
+  let size := match width with | none => w | some 0 => w | some W => W
+  if size < w then none else some ((List.range size).map fun i => some (n.testBit i))
+
+/-- `s` literals: character `k` (from the left) occupies bits `[8k, 8k+8)`, zero extended to an explicit width -/
+def specStr (str : List Char) (width : Option Nat) : Option (List (Option Bool)) :=
+  let w := str.length * 8
+  let size := match width with | none => w | some 0 => w | some W => W
+  if size < w then none else
+    some ((List.range size).map fun i => some (decide (i < w) && (str.getD (i / 8) ' ').toNat.testBit (i % 8)))
+
+/-- the grammar specification of the whole literal syntax -/
+def specLiteral (s : String) : Option (List (Option Bool)) :=
+  let (width, rest) := splitWidth s.toList
+  match rest with
+  | 's' :: t => specStr t width
+  | 'x' :: t => if t.all (digitOk 4) then specDigits 4 t width else none
+  | 'o' :: t => if t.all (digitOk 3) then specDigits 3 t width else none
+  | 'b' :: t => if t.all (digitOk 1) then specDigits 1 t width else none
+  | 'd' :: t => if t.all isDigit then specDec t width else none
+  | _ => none
+
 def resultBits : ParseResult → Option (List (Option Bool))
   | .ok size v d => some ((List.range size).map fun i => if bit d i then some (bit v i) else none)
   | _ => none
